@@ -81,6 +81,13 @@ fn init_states(r: &dyn Runner, prop: Prop, tier: Tier, cmax: usize) -> Vec<McSta
             None => for c in 0..=cmax { v.push(McState { len: 0, cap: c as u16, spare, bad: None }); },
         }
     }
+    // wide states: lengths around ceil(128 / size), where the erased shift switches from the byte loop to ptr::copy
+    if matches!(prop, Prop::C01 | Prop::C02 | Prop::C03 | Prop::C05) && r.fixed_cap().is_none() && r.elem_size() > 0 && r.elem_size() < 64 {
+        let t = (128 + r.elem_size() - 1) / r.elem_size();
+        let mut lens = vec![t - 1, t, t + 1, t + t / 2];
+        if tier == Tier::Quick { lens = vec![t, t + 1]; }
+        for l in lens { if l > 3 && l < 230 { for extra in [0usize, 2] { v.push(McState { len: l as u16, cap: (l + extra) as u16, spare: Spare::Pristine, bad: None }); } } }
+    }
     v
 }
 
@@ -125,6 +132,7 @@ fn quiet_panics() {
     std::panic::set_hook(Box::new(|info| {
         // non-unwinding panics (core ub_checks in the dbglike flavour) still run the hook: make them visible
         let msg = info.to_string();
+        if !elem::in_lib() && !msg.contains("InjectedFault") && std::env::var("MC_SHOW_PANICS").is_ok() { eprintln!("HARNESS-PANIC {msg}"); }
         if msg.contains("unsafe precondition") {
             let _w = elem::WindowOff::new();
             eprintln!("UBCHECK {msg}");
